@@ -1,4 +1,5 @@
 import Bgpfu.Lemmas.Framing
+import Bgpfu.Lemmas.PumpQueue
 /-!
 # C06 — message boundaries do not depend on how the byte stream is segmented
 
@@ -166,5 +167,158 @@ second stays in the buffer until more traffic arrives (defect D2). -/
 theorem pump_two_in_one_cex :
     pump .pinned [.data (wire [[60, 97, 47, 62], [60, 98, 47, 62]])] []
       = ([[60, 97, 47, 62, 93, 93, 62, 93, 93, 62]], [60, 98, 47, 62, 93, 93, 62, 93, 93, 62], .running) := by decide
+
+/-! ## The SSH pump and its *bounded* queue (`mpsc::channel(32)`, ssh.rs:59,95)
+
+`pump` above is the pump with an unbounded queue. The small-step model `PQ` (Model/Framing.lean) adds
+the queue capacity, the suspended `send(..).await` and the consumer. Reachable states are
+`PQ.run true cap acts (PQ.init evs)` for an arbitrary interleaving `acts` of pump polls and `recv()` calls. -/
+
+/-- **Bounded queue, safety.** In every reachable state, for every capacity and every interleaving:
+the queue never exceeds its capacity, and *delivered ++ queued ++ split-off-but-not-yet-enqueued* is a
+prefix of the output of the unbounded pump — same messages, same order, each at one place (the
+concatenation is a prefix, so nothing is duplicated or reordered) — and what is missing is exactly what
+the unbounded pump would still produce from the unprocessed events (nothing is dropped). -/
+theorem pumpq_safety (cap : Nat) (evs : List ChanEv) (acts : List PQAct) :
+    let s := PQ.run true cap acts (PQ.init evs)
+    s.delivered ++ s.queue ++ s.todo <+: (pump .fixed evs []).1 ∧
+    s.queue.length ≤ cap ∧
+    s.delivered ++ s.queue ++ s.todo ++ (pump .fixed s.evs s.buf).1 = (pump .fixed evs []).1 := by
+  intro s
+  have h : s.Inv (pump .fixed evs []).1 cap := PQ.run_inv acts (PQ.init_inv evs cap)
+  exact ⟨⟨_, h.1⟩, h.2, h.1⟩
+
+/-- **Bounded queue, liveness (general fairness).** From every reachable state (after any `acts`), any
+continuation that consists of at least
+`pending events + 2 * (messages of the unbounded pump not yet delivered)` *rounds* — a round is any
+stretch of the schedule in which the pump is polled at least once and `recv()` is called at least once, in
+any order, any number of times — ends with every message of the unbounded pump delivered, in order,
+nothing left in the queue or in the pump, and the pump in the final status of the unbounded pump.
+Needs `cap ≥ 1` only. No assumption on the events: if they contain `eof`/`closed`, `(pump .fixed evs []).1`
+is the messages completed before it (`pump_data_then_end`, `pumpq_delivers_before_eof`). -/
+theorem pumpq_liveness (cap : Nat) (hcap : 1 ≤ cap) (evs : List ChanEv) (acts : List PQAct)
+    (rounds : List (List PQAct)) (hfair : ∀ r ∈ rounds, PQAct.pump ∈ r ∧ PQAct.consume ∈ r)
+    (hlen : (PQ.run true cap acts (PQ.init evs)).evs.length +
+        2 * ((pump .fixed evs []).1.length - (PQ.run true cap acts (PQ.init evs)).delivered.length) ≤ rounds.length) :
+    let s' := PQ.run true cap (acts ++ rounds.flatten) (PQ.init evs)
+    s'.delivered = (pump .fixed evs []).1 ∧ s'.queue = [] ∧ s'.todo = [] ∧ s'.evs = [] ∧
+    s'.st = (pump .fixed evs []).2.2 := by
+  intro s'
+  have hs : s' = PQ.run true cap rounds.flatten (PQ.run true cap acts (PQ.init evs)) := PQ.run_append ..
+  have hinv : (PQ.run true cap acts (PQ.init evs)).Inv (pump .fixed evs []).1 cap :=
+    PQ.run_inv acts (PQ.init_inv evs cap)
+  have hinv' : s'.Inv (pump .fixed evs []).1 cap := PQ.run_inv _ (PQ.init_inv evs cap)
+  have hst : s'.StInv (pump .fixed evs []).2.2 := PQ.run_stInv _ (PQ.init_stInv evs)
+  have hw := PQ.rounds_work hcap rounds (PQ.run true cap acts (PQ.init evs)) hfair
+  have hb := PQ.work_le_of_inv hinv
+  rw [← hs] at hw
+  obtain ⟨h1, h2, h3, h4⟩ := PQ.done_of_work_zero (s := s') (by omega)
+  refine ⟨?_, h3, h2, h1, PQ.st_of_done hst h1⟩
+  have := hinv'.1
+  rw [h2, h3, h4] at this
+  simpa using this
+
+/-- **Bounded queue, liveness (explicit schedule and bound).** From the reachable state after `acts`,
+the round-robin schedule pump, consume, pump, consume, … of `2 * n` steps, for any
+`n ≥ pending events + 2 * undelivered messages`, delivers everything. -/
+theorem pumpq_liveness_round_robin (cap : Nat) (hcap : 1 ≤ cap) (evs : List ChanEv) (acts : List PQAct) (n : Nat)
+    (hn : (PQ.run true cap acts (PQ.init evs)).evs.length +
+        2 * ((pump .fixed evs []).1.length - (PQ.run true cap acts (PQ.init evs)).delivered.length) ≤ n) :
+    let s' := PQ.run true cap (acts ++ roundRobin n) (PQ.init evs)
+    (roundRobin n).length = 2 * n ∧
+    s'.delivered = (pump .fixed evs []).1 ∧ s'.queue = [] ∧ s'.todo = [] ∧ s'.evs = [] ∧
+    s'.st = (pump .fixed evs []).2.2 := by
+  intro s'
+  refine ⟨roundRobin_length n, ?_⟩
+  have := pumpq_liveness cap hcap evs acts (List.replicate n [PQAct.pump, PQAct.consume])
+    (by intro r hr; rw [List.eq_of_mem_replicate hr]; simp) (by simpa using hn)
+  rw [← roundRobin_eq] at this
+  exact this
+
+/-- **user-level form, channel stays open**: the peer sends well-framed messages `ms`, packetised in any
+way `cs`; with any queue capacity `≥ 1`, after `cs.length + 2 * ms.length` rounds of any fair schedule the
+session has received exactly `ms` (with delimiters), each once, in order; the pump is running and idle. -/
+theorem pumpq_delivers_framed (cap : Nat) (hcap : 1 ≤ cap) (ms : List (List Byte)) (cs : List (List Byte))
+    (hms : ∀ m ∈ ms, WellFramed m) (hcs : cs.flatten = wire ms)
+    (rounds : List (List PQAct)) (hfair : ∀ r ∈ rounds, PQAct.pump ∈ r ∧ PQAct.consume ∈ r)
+    (hlen : cs.length + 2 * ms.length ≤ rounds.length) :
+    let s' := PQ.run true cap rounds.flatten (PQ.init (cs.map .data))
+    s'.delivered = ms.map (· ++ marker) ∧ s'.queue = [] ∧ s'.todo = [] ∧ s'.evs = [] ∧ s'.st = .running := by
+  have hp := pump_framed ms cs hms hcs
+  have := pumpq_liveness cap hcap (cs.map .data) [] rounds hfair (by simpa [PQ.run, PQ.init, hp] using hlen)
+  simpa [hp] using this
+
+/-- **what happens at `eof` / channel closure**: the messages completed by the data before it are all
+delivered (they were enqueued before the pump exited, and a closed `mpsc` queue still hands out what it
+holds); the pump ends `exited`, so the next `recv()` finds the queue empty and closed
+(`Err(DequeueMessage)`); events after the end are never looked at. -/
+theorem pumpq_delivers_before_eof (cap : Nat) (hcap : 1 ≤ cap) (cs : List (List Byte)) (e : ChanEv) (post : List ChanEv)
+    (he : e = .eof ∨ e = .closed)
+    (rounds : List (List PQAct)) (hfair : ∀ r ∈ rounds, PQAct.pump ∈ r ∧ PQAct.consume ∈ r)
+    (hlen : (cs.length + 1 + post.length) + 2 * (split cs.flatten).1.length ≤ rounds.length) :
+    let s' := PQ.run true cap rounds.flatten (PQ.init (cs.map .data ++ e :: post))
+    s'.delivered = (split cs.flatten).1 ∧ s'.queue = [] ∧ s'.todo = [] ∧ s'.evs = [] ∧ s'.st = .exited := by
+  have hp := pump_data_then_end cs e post [] (by decide) he
+  simp only [List.nil_append] at hp
+  have := pumpq_liveness cap hcap (cs.map .data ++ e :: post) [] rounds hfair
+    (by simp only [PQ.run, PQ.init, hp.1, List.length_append, List.length_map, List.length_cons, List.length_nil]; omega)
+  simpa [hp.1, hp.2] using this
+
+/-! ### Non-vacuity, and the variant that does not wait for room in the queue -/
+
+/-- capacity 1, one packet completing three messages `<a/>`, `<b/>`, `<c/>`: after three polls of the pump the
+queue is full and the pump is suspended in `send` with two messages in hand (back-pressure, nothing lost);
+six fair rounds later all three have been delivered in order. -/
+example :
+    let evs := [ChanEv.data (wire [[60, 97, 47, 62], [60, 98, 47, 62], [60, 99, 47, 62]])]
+    let s := PQ.run true 1 [.pump, .pump, .pump] (PQ.init evs)
+    let s' := PQ.run true 1 ([.pump, .pump, .pump] ++ roundRobin 6) (PQ.init evs)
+    s.queue = [[60, 97, 47, 62, 93, 93, 62, 93, 93, 62]] ∧
+    s.todo = [[60, 98, 47, 62, 93, 93, 62, 93, 93, 62], [60, 99, 47, 62, 93, 93, 62, 93, 93, 62]] ∧
+    s.delivered = [] ∧
+    s'.delivered = [[60, 97, 47, 62, 93, 93, 62, 93, 93, 62], [60, 98, 47, 62, 93, 93, 62, 93, 93, 62],
+                    [60, 99, 47, 62, 93, 93, 62, 93, 93, 62]] ∧
+    s'.queue = [] ∧ s'.todo = [] ∧ s'.st = .running := by decide
+
+/-- the same schedule as in `pumpq_nowait_cex`, with the code as it is (it waits): all three delivered -/
+example :
+    (PQ.run true 2 ([.pump, .pump, .pump, .pump] ++ roundRobin 8)
+      (PQ.init [.data (wire [[60, 97, 47, 62], [60, 98, 47, 62], [60, 99, 47, 62]])])).delivered
+    = [[60, 97, 47, 62, 93, 93, 62, 93, 93, 62], [60, 98, 47, 62, 93, 93, 62, 93, 93, 62],
+       [60, 99, 47, 62, 93, 93, 62, 93, 93, 62]] := by decide
+
+/-- **The variant that leaves the enqueue loop when the queue is full** (`try_reserve` + `break` instead of
+`send(..).await`; it resumes only on the next `ChannelMsg::Data`): capacity 2, one packet with three
+messages, then silence. The pump is polled before the consumer gets to run (4 polls), then the schedule
+is fair for as long as one likes (here 8 rounds): the third message stays in `in_buf`, complete, and is
+never delivered. -/
+theorem pumpq_nowait_cex :
+    let s := PQ.run false 2 ([.pump, .pump, .pump, .pump] ++ roundRobin 8)
+      (PQ.init [.data (wire [[60, 97, 47, 62], [60, 98, 47, 62], [60, 99, 47, 62]])])
+    s.delivered = [[60, 97, 47, 62, 93, 93, 62, 93, 93, 62], [60, 98, 47, 62, 93, 93, 62, 93, 93, 62]] ∧
+    s.queue = [] ∧ s.todo = [] ∧ s.evs = [] ∧ s.st = .running ∧
+    s.buf = [60, 99, 47, 62, 93, 93, 62, 93, 93, 62] := by decide
+
+/-- … and not only for 8 rounds: after those 4 polls *no* continuation whatsoever delivers the third
+message (the consumer only ever sees the first two), and it stays in the buffer. -/
+theorem pumpq_nowait_stranded (acts : List PQAct) :
+    let s := PQ.run false 2 ([.pump, .pump, .pump, .pump] ++ acts)
+      (PQ.init [.data (wire [[60, 97, 47, 62], [60, 98, 47, 62], [60, 99, 47, 62]])])
+    s.delivered ++ s.queue = [[60, 97, 47, 62, 93, 93, 62, 93, 93, 62], [60, 98, 47, 62, 93, 93, 62, 93, 93, 62]] ∧
+    s.buf = [60, 99, 47, 62, 93, 93, 62, 93, 93, 62] := by
+  intro s
+  have hs : s = PQ.run false 2 acts (PQ.run false 2 [.pump, .pump, .pump, .pump]
+      (PQ.init [.data (wire [[60, 97, 47, 62], [60, 98, 47, 62], [60, 99, 47, 62]])])) := PQ.run_append ..
+  have h0 : PQ.run false 2 [.pump, .pump, .pump, .pump]
+      (PQ.init [.data (wire [[60, 97, 47, 62], [60, 98, 47, 62], [60, 99, 47, 62]])])
+      = { evs := [], buf := [60, 99, 47, 62, 93, 93, 62, 93, 93, 62], todo := [],
+          queue := [[60, 97, 47, 62, 93, 93, 62, 93, 93, 62], [60, 98, 47, 62, 93, 93, 62, 93, 93, 62]],
+          delivered := [], st := .running } := by decide
+  rw [h0] at hs
+  rw [hs]
+  refine And.symm (PQ.stuck_run false 2 acts
+    { evs := [], buf := [60, 99, 47, 62, 93, 93, 62, 93, 93, 62], todo := [],
+      queue := [[60, 97, 47, 62, 93, 93, 62, 93, 93, 62], [60, 98, 47, 62, 93, 93, 62, 93, 93, 62]],
+      delivered := [], st := .running } rfl rfl)
 
 end Framing
